@@ -230,16 +230,78 @@ fn covered_ops(rep: &mut Report, rng: &mut Rng) {
     }
 }
 
+/// greedy shrinking: drop entries and options while `bad` keeps holding
+fn shrink(case: &Case, bad: &dyn Fn(&Case) -> bool) -> Case {
+    let mut cur = case.clone();
+    let mut progress = true;
+    let mut steps = 0;
+    while progress && steps < 60 {
+        progress = false;
+        let mut cands: Vec<Case> = vec![];
+        for i in 0..cur.entries.len() {
+            if cur.entries.len() > 1 {
+                let mut c = cur.clone();
+                c.entries.remove(i);
+                cands.push(c);
+            }
+        }
+        let mut opts: Vec<Box<dyn Fn(&mut Cfg)>> = vec![
+            Box::new(|c| c.ignore.clear()),
+            Box::new(|c| c.keep.clear()),
+            Box::new(|c| c.ine = false),
+            Box::new(|c| c.filter = None),
+            Box::new(|c| c.mapping = None),
+            Box::new(|c| c.pd = None),
+        ];
+        for f in opts.drain(..) {
+            let mut c = cur.clone();
+            f(&mut c.cfg);
+            if format!("{:?}", c.cfg) != format!("{:?}", cur.cfg) {
+                cands.push(c);
+            }
+        }
+        for c in cands {
+            steps += 1;
+            if bad(&c) {
+                cur = c;
+                progress = true;
+                break;
+            }
+        }
+    }
+    cur
+}
+
 fn check_case(rep: &mut Report, t: &Tree, case: &Case, impl_out: &str, model_out: &str) {
-    let cj = case.to_json("rewrite", t);
     match c11_oracle(case) {
-        Some((what, finding)) => rep.fail("oracle", finding, what, cj),
+        Some((what, finding)) => {
+            // shrink to a case that still fails the same way (same finding name, or still unnamed);
+            // only the first few of a kind, the result file keeps at most 40 of them anyway
+            let seen = rep.failures.iter().filter(|f| f.finding.as_deref() == finding).count();
+            if seen >= 12 {
+                rep.fail("oracle", finding, what, case.to_json("rewrite", t));
+                return;
+            }
+            let small = shrink(case, &|c| matches!(c11_oracle(c), Some((_, f)) if f == finding));
+            let what = c11_oracle(&small).map(|x| x.0).unwrap_or(what);
+            rep.fail("oracle", finding, what, small.to_json("rewrite", t))
+        }
         None => {
             if impl_out != model_out {
                 rep.disagreements_checked += 1;
-                let mut cj = cj;
-                cj["impl"] = json!(impl_out);
-                cj["model"] = json!(model_out);
+                let tt = t.clone();
+                let wd = rep.workdir.clone();
+                let few = rep.failures.iter().filter(|f| f.kind == "disagreement").count() < 12;
+                let small = if !few { case.clone() } else { shrink(case, &|c| {
+                    c11_oracle(c).is_none() && {
+                        let req = request("rewrite", &tt, &c.cfg, &c.entries);
+                        let m = run_model_named("gm_c11", &[req], &wd, "shrink");
+                        m[0] != show_recs(&run_impl(&c.cfg, &c.entries))
+                    }
+                }) };
+                let mut cj = small.to_json("rewrite", t);
+                cj["impl"] = json!(show_recs(&run_impl(&small.cfg, &small.entries)));
+                cj["model"] = json!(run_model_named("gm_c11", &[request("rewrite", t, &small.cfg, &small.entries)], &rep.workdir, "shrink")[0].clone());
                 rep.fail("disagreement", None,
                     "rewrite_paths differs from Rewrite.rewritePaths (theorems C11_* no longer transfer)".into(), cj);
             }
@@ -289,17 +351,39 @@ fn rewrite_stream(rep: &mut Report, rng: &mut Rng) {
         for (k, v) in stats {
             rep.count_n(&k, v);
         }
+        // every (configured glob, rewritten path) pair of this tree: globset against the Glob model
+        let mut greqs = vec![];
+        let mut gouts = vec![];
+        for case in &cases {
+            if case.cfg.ignore.is_empty() && case.cfg.keep.is_empty() {
+                continue;
+            }
+            if let Ok(neutral) = run_impl(&case.cfg.neutral(), &case.entries) {
+                for g in case.cfg.ignore.iter().chain(case.cfg.keep.iter()) {
+                    let set = glob_set(&[g.clone()]);
+                    for (_, rel, _) in &neutral {
+                        greqs.push(format!("glob {} {}", h('g', g), h('p', rel)));
+                        gouts.push((if set.is_match(rel) { "1" } else { "0" }).to_string());
+                    }
+                }
+            }
+        }
+        let gmodel = run_model_named("gm_c11", &greqs, &rep.workdir, &format!("rwglobs{}", ti));
+        for i in 0..greqs.len() {
+            rep.count(if gouts[i] == "1" { "rewrite.glob_pair.match" } else { "rewrite.glob_pair.nomatch" });
+            if gouts[i] != gmodel[i] {
+                rep.disagreements_checked += 1;
+                rep.fail("disagreement", None, "globset differs from the Glob model on a (configured glob, rewritten path) pair".into(),
+                    json!({"op": "globop", "request": greqs[i], "impl": gouts[i], "model": gmodel[i]}));
+            }
+        }
         let model = run_model_named("gm_c11", &reqs, &rep.workdir, &format!("rewrite{}", ti));
         for i in 0..reqs.len() {
             if i == 0 && ti < 2 {
                 rep.sample(json!({"case": cases[i].to_json("rewrite", &t), "impl": outs[i], "model": model[i]}));
             }
             // the oracle runs on every case; the model is compared on every case
-            if outs[i] != model[i] {
-                check_case(rep, &t, &cases[i], &outs[i], &model[i]);
-            } else if let Some((what, finding)) = c11_oracle(&cases[i]) {
-                rep.fail("oracle", finding, what, cases[i].to_json("rewrite", &t));
-            }
+            check_case(rep, &t, &cases[i], &outs[i], &model[i]);
         }
     }
     std::env::set_current_dir("/verif").unwrap();
@@ -308,24 +392,30 @@ fn rewrite_stream(rep: &mut Report, rng: &mut Rng) {
 /// closed witnesses of Props/C11.lean replayed on the real code
 fn witnesses(rep: &mut Report) {
     let base = rep.workdir.join("fs");
-    let t = materialise(&base, 900, &["src".into(), "other".into(), "cw".into()], &["src/y.c".into()]);
+    let t = materialise(&base, 900, &["src".into(), "other".into(), "cw".into()], &["src/a.c".into()]);
     std::env::set_current_dir(&t.cw).unwrap();
-    // C11_normal_form_false: a mapped value with backslashes reaches the report as x/../y.c
-    let case = Case {
-        cfg: Cfg { sd: None, pd: None, mapping: Some(vec![("a.c".into(), "x\\..\\y.c".into())]),
-                   ignore: vec![], keep: vec![], ine: false, filter: None },
-        entries: vec![("a.c".to_string(), gen_cov(&mut Rng::new(1), 0))],
+    let plain = |sd: Option<String>, mapping: Option<Vec<(String, String)>>| Cfg {
+        sd, pd: None, mapping, ignore: vec![], keep: vec![], ine: false, filter: None,
     };
-    let out = show_recs(&run_impl(&case.cfg, &case.entries));
-    let req = request("rewrite", &t, &case.cfg, &case.entries);
-    let model = run_model_named("gm_c11", &[req.clone()], &rep.workdir, "witness");
-    rep.case(&req, true);
-    rep.count("witness.mapping_backslash");
-    check_case(rep, &t, &case, &out, &model[0]);
-    if out == model[0] {
-        if let Some((what, finding)) = c11_oracle(&case) {
-            rep.fail("oracle", finding, what, case.to_json("rewrite", &t));
-        }
+    let cases = vec![
+        // C11_normal_form_false: a mapped value with backslashes reaches the report as x/../y.c
+        ("mapping_backslash", Case {
+            cfg: plain(None, Some(vec![("a.c".into(), "x\\..\\y.c".into())])),
+            entries: vec![("a.c".to_string(), gen_cov(&mut Rng::new(1), 0))],
+        }),
+        // C11_relative_under_source_dir_false: <root>/x/../src/a.c, x does not exist
+        ("dotdot_not_relativised", Case {
+            cfg: plain(Some(t.src.clone()), None),
+            entries: vec![(format!("{}/x/../src/a.c", t.root), gen_cov(&mut Rng::new(2), 0))],
+        }),
+    ];
+    for (name, case) in cases {
+        let out = show_recs(&run_impl(&case.cfg, &case.entries));
+        let req = request("rewrite", &t, &case.cfg, &case.entries);
+        let model = run_model_named("gm_c11", &[req.clone()], &rep.workdir, "witness");
+        rep.case(&req, true);
+        rep.count(&format!("witness.{}", name));
+        check_case(rep, &t, &case, &out, &model[0]);
     }
     std::env::set_current_dir("/verif").unwrap();
 }
@@ -342,11 +432,11 @@ pub fn run(rep: &mut Report) {
         .to_string();
     // corrlib's Rng::new is linear in the seed (seed+2 is the same stream two draws later): hash it first
     let mut rng = Rng::new(fnv64(&(rep.seed ^ 0xC11).to_le_bytes()));
+    witnesses(rep);
     path_ops(rep, &mut rng);
     glob_ops(rep, &mut rng);
     covered_ops(rep, &mut rng);
     rewrite_stream(rep, &mut rng);
-    witnesses(rep);
     rep.notes.push("Java/Kotlin keys (map_partial_path), exclusion markers, symlinks and keys whose first character is a cased non-ASCII letter are outside the generated domain; relative keys without source dir are resolved against the process cwd, which the harness sets to <tree>/cw".into());
 }
 
